@@ -4,18 +4,26 @@ Driver handler of the `response` stream (C15).
   (resp <id> (set <pretty 0|1> <n|j|x>) (coding 0|1) (ops <op>…) (obs <obs>…) (final <status> <length>)?)
   op  := (pp b) | (acc n|j|x) | (wh s) | (w n) | (wes s n) | (we s <errIsNil 0|1> n) | (wse s ent) | (whe s ent)
        | (wen ent) | (waj ent) | (wax ent) | (wj ent) | (whj s ent) | (whx s ent)
-  ent := nil | (v <pj n|fail> <px n|fail> (ej <fails 0|1> chunk…) (ex <fails 0|1> chunk…))
-  obs := (c <StatusCode()> <ContentLength()> <returned error 0|1> <Error()!=nil 0|1> ev…)     one per op, in order
-  ev  := (h status) | (w offered accepted failed)                what the writer beneath the Response saw
+  ent := nil | (v <pj n|fail> <px n|fail> (ej <fails 0|1> chunk…) (ex <fails 0|1> chunk…) (exm <masked 0|1>…)?)
+  obs := (c <StatusCode()> <ContentLength()> <ret> <Error()!=nil 0|1> ev…)     one per op, in order
+  ret := 0 | <tag> | x        the error the call returned: nil, the value a `Write` event of the case
+                              returned (by identity; the tag of that event), anything else
+  ev  := (h status) | (w offered accepted <err>)       what the writer beneath the Response saw;
+                              err = 0: nil, otherwise a tag naming the error VALUE returned (equal
+                              tags = identical values)
 
-The environment handed to the model is the list of `(accepted, failed)` results of the observed
+The environment handed to the model is the list of `(accepted, err)` results of the observed
 `Write` events, in order.  Answer:
 
-  (out <id> (calls (c status length retErr errSet ev…)…) (fin status length) (tag t…)
-       (spec C15 0|1) (disc 0|1) (dcalls 0|1))
+  (out <id> (calls (c status length ret errSet ev…)…) (fin status length) (tag t…)
+       (spec C15 0|1) (disc 0|1) (dcalls 0|1) (mclean 0|1) (oq n))
 
-`spec C15` is `Spec.c15Holds` on the OBSERVED history; `disc` says whether the observed events obey
-the discipline, `dcalls` whether the call sequence does (`Spec.disciplinedCalls`).
+`spec C15` is `Spec.c15Holds` on the OBSERVED history (whether a call's value marshals — `ownErr` —
+is a fact about the call: it comes from the marshalling facts of the op); `disc` says whether the
+observed events obey the discipline, `dcalls` whether the call sequence does
+(`Spec.disciplinedCalls`), `mclean` whether every entity of the sequence marshals
+(`Spec.marshalClean`), `oq` counts the observed calls in which a `Write` failed AND the value does not
+marshal (outside the quantifier of "returns THAT error").
 -/
 import Restful.Driver.SExp
 import Restful.Spec.Response
@@ -44,6 +52,12 @@ def decEnt : SExp → Option Marshalled
     let (cx, fx) ← decEnc "ex" ex
     pure { isNil := false, prettyJson := ← decOptNat pj, prettyXml := ← decOptNat px,
            encJson := cj, encJsonFails := fj, encXml := cx, encXmlFails := fx }
+  | .list [.atom "v", pj, px, ej, ex, exm] => do
+    let (cj, fj) ← decEnc "ej" ej
+    let (cx, fx) ← decEnc "ex" ex
+    let ms ← (← args "exm" exm).mapM asBool
+    pure { isNil := false, prettyJson := ← decOptNat pj, prettyXml := ← decOptNat px,
+           encJson := cj, encJsonFails := fj, encXml := cx, encXmlFails := fx, encXmlMasked := ms }
   | _ => none
 
 def decCall : SExp → Option Call
@@ -65,13 +79,17 @@ def decCall : SExp → Option Call
 
 def decEvent : SExp → Option UEvent
   | .list [.atom "h", s] => do pure (.header (← asNat s))
-  | .list [.atom "w", o, a, f] => do pure (.write (← asNat o) (← asNat a) (← asBool f))
+  | .list [.atom "w", o, a, f] => do pure (.write (← asNat o) (← asNat a) (← asNat f))
   | _ => none
 
-/-- observed call and its `Error() != nil` -/
+def decRet : SExp → Option Ret
+  | .atom "x" => some .other
+  | e => (asNat e).map fun n => if n = 0 then .nil else .writer n
+
+/-- observed call (its `ownErr` is filled in from the ops) and its `Error() != nil` -/
 def decObs : SExp → Option (Spec.ObsCall × Bool)
   | .list (.atom "c" :: s :: n :: e :: es :: evs) => do
-    pure (⟨← evs.mapM decEvent, ← asNat s, ← asNat n, ← asBool e⟩, ← asBool es)
+    pure (⟨← evs.mapM decEvent, ← asNat s, ← asNat n, ← decRet e, false⟩, ← asBool es)
   | _ => none
 
 def decFinal : SExp → Option (Option (Nat × Nat))
@@ -83,13 +101,28 @@ def bit (b : Bool) : String := if b then "1" else "0"
 
 def encEvent : UEvent → String
   | .header s => s!"(h {s})"
-  | .write o a f => s!"(w {o} {a} {bit f})"
+  | .write o a f => s!"(w {o} {a} {f})"
+
+def encRet : Ret → String
+  | .nil => "0"
+  | .writer t => s!"{t}"
+  | .other => "x"
 
 def encResult (r : CallResult) : String :=
-  s!"(c {r.status} {r.length} {bit r.retErr} {bit r.errSet}" ++ String.join (r.events.map fun e => " " ++ encEvent e) ++ ")"
+  s!"(c {r.status} {r.length} {encRet r.ret} {bit r.errSet}" ++ String.join (r.events.map fun e => " " ++ encEvent e) ++ ")"
 
 def envOfEvents (evs : List UEvent) : Env :=
   Env.ofList (evs.filterMap fun e => match e with | .write _ a f => some ⟨a, f⟩ | .header _ => none)
+
+/-- per call: the value handed to it does not marshal (the plan's `ownErr`) -/
+def ownErrs : Settings → List Call → List Bool
+  | _, [] => []
+  | s, c :: cs => (c.plan s).ownErr :: ownErrs (c.next s) cs
+
+/-- the observed calls with `ownErr` taken from the ops (a call that was not observed to return has no entry) -/
+def withOwnErr : List Spec.ObsCall → List Bool → List Spec.ObsCall
+  | o :: os, b :: bs => { o with ownErr := b } :: withOwnErr os bs
+  | os, _ => os
 
 def callTags : Settings → List Call → List String
   | _, [] => []
@@ -97,14 +130,16 @@ def callTags : Settings → List Call → List String
 
 def responseAnswer (id : String) (s : Settings) (coding : Bool) (calls : List Call)
     (obs : List (Spec.ObsCall × Bool)) (final : Option (Nat × Nat)) : String :=
-  let hist : Spec.History := { coding := coding, calls := obs.map (·.1), final := final }
+  let hist : Spec.History := { coding := coding, calls := withOwnErr (obs.map (·.1)) (ownErrs s calls), final := final }
+  let oq := (hist.calls.filter fun c => c.ownErr && c.events.any Spec.failedWrite).length
   let evs := Spec.allEvents hist.calls
   let env := envOfEvents evs
   let res := run env (State.init s) calls
   let fin := finalState env (State.init s) calls
   s!"(out {id} (calls{String.join (res.map fun r => " " ++ encResult r)}) (fin {fin.StatusCode} {fin.ContentLength})" ++
     s!" (tag {" ".intercalate (callTags s calls)})" ++
-    s!" (spec C15 {bit (Spec.c15Holds hist)}) (disc {bit (Spec.discipline evs)}) (dcalls {bit (Spec.disciplinedCalls s calls)}))"
+    s!" (spec C15 {bit (Spec.c15Holds hist)}) (disc {bit (Spec.discipline evs)}) (dcalls {bit (Spec.disciplinedCalls s calls)})" ++
+    s!" (mclean {bit (Spec.marshalClean s calls)}) (oq {oq}))"
 
 def handleResponse : SExp → Option String
   | .list [.atom "resp", .atom id, set, cod, ops, obs, fin] =>
